@@ -44,6 +44,7 @@ func CloseAll() {
 
 // Reset forgets every disk (start of a run). Objects of an earlier bubble are never touched.
 func Reset() {
+	WriteFault = nil
 	mu.Lock()
 	disks = map[int]map[string]*disk{}
 	failOpen = map[int]bool{}
@@ -81,6 +82,24 @@ func Open(path string, o *opt.Options) (*leveldb.DB, error) {
 	}
 	d.db = db
 	return db, nil
+}
+
+// WriteFault, when set by a profile, decides whether a write of the leveldb-backed kv fails (disk full, I/O error).
+// It is consulted by BeforeWrite on the writing task, after the scheduling point.
+var WriteFault func(node int, op string) error
+
+// BeforeWrite is inserted by rewrite rule R6 at the top of (*LeveldbKV).Save / Remove / SaveRegions: the write becomes
+// a scheduling point (other tasks may run between the caller's preparation and the write reaching the disk) and may
+// fail with an injected error before anything is written.
+func BeforeWrite(op string) error {
+	if simrt.CurrentTask() == nil {
+		return nil
+	}
+	simrt.Yield("disk." + op)
+	if f := WriteFault; f != nil {
+		return f(simrt.CurrentNode(), op)
+	}
+	return nil
 }
 
 // CrashNode closes the DB handles of a crashed node so that a restart can reopen
